@@ -410,6 +410,42 @@ fn check_entries(ch: &mut Choices, cx: &mut Ctx) -> R {
             }
         }
     }
+    // ---- (b'') a cursor whose read fails part-way through a unit is left like a cursor whose first read failed: no
+    // current entry (nothing of the entries read before), and nothing further
+    {
+        // (an entry after the first of some unit gets an abbreviation code that no table declares)
+        let mut map3 = asm.sections.clone();
+        let later: Vec<usize> = asm.positions.iter().filter(|(t, _)| t.1 > 0).map(|(_, p)| p.1).collect();
+        if let (Some(info), false) = (map3.get_mut(".debug_info"), later.is_empty()) {
+            let at = later[ch.below(later.len())];
+            if at < info.len() {
+                info[at] = 0x7e;
+            }
+        }
+        let dw2 = load_map(&map3, d.big);
+        let mut it = dw2.units();
+        while let Ok(Some(h)) = it.next() {
+            let Ok(unit) = dw2.unit(h) else { continue };
+            let mut c = unit.entries();
+            let mut n = 0usize;
+            loop {
+                match c.next_entry() {
+                    Ok(true) => n += 1,
+                    Ok(false) => break,
+                    Err(_) => {
+                        ensure!(c.current().is_none(), "c20/cursor/current-after-error", "after {} entries and a failed read the cursor still reports a current entry: {}", n, c.current().map(entry_str).unwrap_or_default());
+                        ensure!(matches!(c.next_sibling(), Ok(None)), "c20/cursor/next_sibling-after-error", "after {} entries and a failed read", n);
+                        ensure!(matches!(c.next_entry(), Ok(false)), "c20/cursor/next_entry-after-error", "after {} entries and a failed read", n);
+                        cx.label("cursor: read failed part-way through a unit");
+                        break;
+                    }
+                }
+                if n > 10_000 {
+                    break;
+                }
+            }
+        }
+    }
     // ---- (b') an attribute vector reused across `read_abbreviation` + `read_attributes` (documented to clear it), and
     // an entry overwritten by `clone_from`
     {
@@ -840,7 +876,7 @@ impl Prop for C20 {
         "C20"
     }
     fn rule(&self) -> &'static str {
-        "(a) pools of 2-4 generated FDEs (the C06 generator: every call-frame instruction, programs that fail in the CIE's initial instructions, mid-FDE, by row-stack or rule overflow, CIEs with 0, 1 and many initial rules, extra DW_CFA_GNU_args_size) evaluated on one UnwindContext (heap storage and fixed storages 2x2, 4x4, 3x5, 193x5) along every ordered pair, every triple for pools <= 3 and four generated histories of length 3-7 whose steps consume all rows, one row or three rows: each step's rows and outcome must equal those on a fresh context; (b) one DebuggingInformationEntry buffer reused across all entries of generated units vs a fresh buffer per entry; (c) EntriesTree::root called again after 1-3 partial traversals of generated length vs a fresh tree; (d) clones of the depth-first cursor, of LineRows, of operation iterators, of the CFI entries iterator and of the unit-header iterator taken at every position (the original is advanced further before the clone moves) vs an uninterrupted iteration; (d') multi-sequence line programs (the C04 generator) run straight through vs every sequence resumed on its own through sequences()/resume_from (reverse order, twice) and vs clones taken at every row boundary; (e) Dwarf::unit for every unit with the abbreviation cache populated under Duplicates / All, in forward or reverse order and twice, incl. units sharing one abbreviation table and a unit whose abbreviation offset is invalid, vs the uncached result, and histories of 2-5 steps on one cache mixing manual `set` of a foreign table with `populate` under either strategy (documented to discard existing entries): after every populate each unit equals the uncached result. Non-trivial = a pool with both failing and succeeding FDEs, or a re-rooted tree of >= 3 entries; distinct by choice string."
+        "(a) pools of 2-4 generated FDEs (the C06 generator: every call-frame instruction, programs that fail in the CIE's initial instructions, mid-FDE, by row-stack or rule overflow, CIEs with 0, 1 and many initial rules, extra DW_CFA_GNU_args_size) evaluated on one UnwindContext (heap storage and fixed storages 2x2, 4x4, 3x5, 193x5) along every ordered pair, every triple for pools <= 3 and four generated histories of length 3-7 whose steps consume all rows, one row or three rows: each step's rows and outcome must equal those on a fresh context; (b) one DebuggingInformationEntry buffer reused across all entries of generated units vs a fresh buffer per entry; (c) EntriesTree::root called again after 1-3 partial traversals of generated length vs a fresh tree; (d) clones of the depth-first cursor, of LineRows, of operation iterators, of the CFI entries iterator and of the unit-header iterator taken at every position (the original is advanced further before the clone moves) vs an uninterrupted iteration; (d') multi-sequence line programs (the C04 generator) run straight through vs every sequence resumed on its own through sequences()/resume_from (reverse order, twice) and vs clones taken at every row boundary; (e) Dwarf::unit for every unit with the abbreviation cache populated under Duplicates / All, in forward or reverse order and twice, incl. units sharing one abbreviation table and a unit whose abbreviation offset is invalid, vs the uncached result, and histories of 2-5 steps on one cache mixing manual `set` of a foreign table with `populate` under either strategy (documented to discard existing entries): after every populate each unit equals the uncached result. Non-trivial = a pool with both failing and succeeding FDEs, or a re-rooted tree of >= 3 entries; distinct by choice string. Later additions: clone_from into used cursors, iterators and entries; an attribute vector reused across read_abbreviation + read_attributes; address lookups on one context across FDEs covering the same address; the file entry a resumed line row names."
     }
     fn assumptions(&self) -> Vec<&'static str> {
         vec!["fresh state is the oracle: the same gimli code on newly created contexts, buffers, trees, iterators and an unpopulated cache"]
